@@ -347,6 +347,7 @@ func checkCollisionDetection(c *Ctx, gen *packages.Package) {
 	})
 	var detector *ast.FuncDecl
 	var callPos token.Pos
+	var detectorCall *ast.CallExpr
 	returned := false
 	for _, st := range fd.Body.List {
 		is, ok := st.(*ast.IfStmt)
@@ -370,6 +371,7 @@ func checkCollisionDetection(c *Ctx, gen *packages.Package) {
 			continue
 		}
 		detector, callPos = cand, call.Pos()
+		detectorCall = call
 		for _, s := range is.Body.List {
 			if rs, ok := s.(*ast.ReturnStmt); ok && len(rs.Results) == 1 && goan.IsIdent(rs.Results[0], "err") {
 				returned = true
@@ -478,6 +480,55 @@ func checkCollisionDetection(c *Ctx, gen *packages.Package) {
 	})
 	c.Check(early == "", rule, "generator.GenOpts.write › no success return precedes the collision check", c.posOf(gen, callPos), "the check runs for every object that resolves to a target",
 		"write() can return nil at "+early+" before the collision check: an object whose target already exists (skip_exists) is dropped without the collision being reported")
+	// what is remembered is the file that is written: the key of the set is the path handed to the
+	// check, nothing else (two templates, two packages or two objects writing one file collide), and
+	// that path is the one os.WriteFile receives
+	{
+		var writePath ast.Expr
+		ast.Inspect(fd.Body, func(n ast.Node) bool {
+			if call, ok := n.(*ast.CallExpr); ok {
+				if fn := goan.Callee(info, call); fn != nil && goan.CalleeName(fn) == "os.WriteFile" && len(call.Args) > 0 {
+					writePath = call.Args[0]
+				}
+			}
+			return true
+		})
+		var pathParam *types.Var
+		samePath := false
+		if writePath != nil {
+			want := goan.ExprString(goan.ResolveLocal(info, fd.Body, writePath))
+			sig := info.Defs[detector.Name].Type().(*types.Signature)
+			for i, a := range detectorCall.Args {
+				if goan.ExprString(goan.ResolveLocal(info, fd.Body, a)) == want && i < sig.Params().Len() {
+					samePath, pathParam = true, sig.Params().At(i)
+				}
+			}
+		}
+		c.Check(samePath, rule, "generator.GenOpts.write › the collision check receives the path that is written", c.posOf(gen, callPos), "same expression as the first argument of os.WriteFile",
+			"the collision check is not given the path os.WriteFile writes to: two objects written to one file are not recognised as such")
+		if pathParam != nil {
+			bad := ""
+			ast.Inspect(detector.Body, func(n ast.Node) bool {
+				ix, ok := n.(*ast.IndexExpr)
+				if !ok {
+					return true
+				}
+				if _, isMap := info.TypeOf(ix.X).Underlying().(*types.Map); !isMap {
+					return true
+				}
+				if se, ok := ast.Unparen(ix.X).(*ast.SelectorExpr); !ok || info.Uses[se.Sel] == nil || !info.Uses[se.Sel].(*types.Var).IsField() {
+					return true
+				}
+				k := goan.ResolveLocal(info, detector.Body, ix.Index)
+				if id, ok := ast.Unparen(k).(*ast.Ident); !ok || info.Uses[id] != pathParam {
+					bad = goan.ExprString(k)
+				}
+				return true
+			})
+			c.Check(bad == "", rule, "generator."+load.FuncName(detector)+" › generated targets are keyed by the written path", c.posOf(gen, detector.Pos()), "key = the path parameter",
+				"the set of generated targets is keyed by `"+bad+"`, not by the path of the file alone: two objects that differ in the rest of the key are written to the same file, the second over the first, without an error")
+		}
+	}
 	c.Check(firstWrite != token.NoPos && callPos < firstWrite, rule, "generator.GenOpts.write › collision check precedes every file-system write", c.posOf(gen, callPos), "top-level statement before os.MkdirAll / os.WriteFile", "the collision check comes after the file was written")
 }
 
@@ -593,6 +644,12 @@ func checkRouteClash(c *Ctx, rule string, gen *packages.Package) {
 		})
 		if lookup && errRet && cleaned && method && unnamed && !nested {
 			found, pos = true, rs.Pos()
+			// the only planning that may leave the table aside is a client's: every other exit of
+			// the loop (a skipped iteration, an end before the last operation) is a clash not looked for
+			for _, ex := range loopExitConds(info, rs) {
+				c.Check(ex.cond == "‹GenOpts›.IsClient", rule, "generator.appGenerator.makeCodegenApp › route table › "+ex.kind+" only for a client", c.posOf(gen, ex.pos), "if IsClient",
+					"the loop that looks for operations sharing a router slot is left ("+ex.kind+") under `"+ex.text+"`: the builder registers every handler under (method, cleaned path) whatever else is generated, so with that option two operations may share a slot and one of them is unreachable, without an error")
+			}
 		}
 		return true
 	})
@@ -736,4 +793,48 @@ var generatorFieldsNotSet = map[string]string{
 	"codeGenOpBuilder.buildOperationSchema › schemaGenContext.WithXML":              "deviant, left alone: the --with-xml option is not carried into schemas inlined in operations; it adds xml struct tags only",
 	"schemaGenContext.makeNewStruct › schemaGenContext.WantsRootedErrorPath":        "deviant, left alone: not carried into the structs generated for anonymous objects; error paths only",
 	"schemaGenContext.makeNewStruct › schemaGenContext.WithXML":                     "deviant, left alone: not carried into the structs generated for anonymous objects; xml struct tags only",
+}
+
+type loopExit struct {
+	kind, cond, text string
+	pos              token.Pos
+}
+
+// loopExitConds: the break and continue statements of a loop body (not those of inner loops or
+// switches) with the conjunction of the conditions they sit under, fields of the options
+// written ‹GenOpts›.F whatever the path that leads to them.
+func loopExitConds(info *types.Info, rs *ast.RangeStmt) []loopExit {
+	var out []loopExit
+	norm := func(e ast.Expr) string {
+		if se, ok := ast.Unparen(e).(*ast.SelectorExpr); ok {
+			if n := goan.NamedName(info.TypeOf(se.X)); n == "GenOpts" {
+				return "‹GenOpts›." + se.Sel.Name
+			}
+		}
+		return goan.ExprString(e)
+	}
+	var walk func(list []ast.Stmt, conds []string, texts []string)
+	walk = func(list []ast.Stmt, conds []string, texts []string) {
+		for _, st := range list {
+			switch x := st.(type) {
+			case *ast.BranchStmt:
+				if x.Tok == token.BREAK || x.Tok == token.CONTINUE {
+					out = append(out, loopExit{kind: x.Tok.String(), cond: strings.Join(conds, " ∧ "), text: strings.Join(texts, " && "), pos: x.Pos()})
+				}
+			case *ast.IfStmt:
+				walk(x.Body.List, append(append([]string{}, conds...), norm(x.Cond)), append(append([]string{}, texts...), goan.ExprString(x.Cond)))
+				if x.Else != nil {
+					if b, ok := x.Else.(*ast.BlockStmt); ok {
+						walk(b.List, append(append([]string{}, conds...), "!("+norm(x.Cond)+")"), append(append([]string{}, texts...), "!("+goan.ExprString(x.Cond)+")"))
+					} else {
+						walk([]ast.Stmt{x.Else}, append(append([]string{}, conds...), "!("+norm(x.Cond)+")"), append(append([]string{}, texts...), "!("+goan.ExprString(x.Cond)+")"))
+					}
+				}
+			case *ast.BlockStmt:
+				walk(x.List, conds, texts)
+			}
+		}
+	}
+	walk(rs.Body.List, nil, nil)
+	return out
 }
